@@ -551,6 +551,68 @@ def check_uncomp_fallback(ck, prog):
               conds, lim), key="FALLBACK:chunk-limit-margin")
 
 
+def smear_distance_set(f, var):
+    """For the statements `var |= var >> k` of f (in order): the set of distances the OR-smear reaches, i.e. result bit
+    i = OR over j in S of input bit i+j with S = subset sums of the shift amounts (< 32).  Returns (S, shifts, site)."""
+    S, shifts, site = {0}, [], None
+    for b, i, e in sorted(f.iter_elems(), key=lambda t: (ex.line(t[2]) or 0)):
+        if e.get("k") != "asg" or e.get("op") != "|=":
+            continue
+        l = ex.strip(e["l"])
+        r = ex.strip(e["r"])
+        if l is None or l.get("k") != "var" or l.get("n") != var or r is None:
+            continue
+        if r.get("k") == "bin" and r["op"] == ">>" and ex.strip(r["l"]).get("n") == var and ex.const_val(r["r"]) is not None:
+            k = ex.const_val(r["r"])
+            shifts.append(k)
+            S = {a for a in (S | {x + k for x in S}) if a < 32}
+            site = site or e
+        else:
+            raise AnalysisBroken("%s: `%s |= ...` is not an OR/shift smear step: %s" % (f.name, var, ex.show(e)[:60]))
+    return S, shifts, site
+
+
+def check_dict_rounding(ck, prog):
+    """The dictionary size written to a header is the requested size rounded UP to the next 2^n or 2^n + 2^(n-1) (the only
+    sizes the LZMA2 property byte can express and the only ones liblzma's .lzma decoder accepts in picky mode).  Both
+    encoders round with `--d; d |= d >> k ...`: the smear is the OR-linear operator with distance set S = subset sums of
+    the shift amounts, and it yields exactly "keep the top two bits, fill everything below" iff S = {0, 2, 3, ..., 31}
+    (distance 1 missing keeps the bit below the top bit as it is; every other distance present fills the rest).  A
+    missing distance leaves a hole (declared size smaller than the one the encoder uses: the decoder rejects long
+    distances); distance 1 present rounds 2^n + 2^(n-1) sizes up to 2^(n+1)."""
+    ck.rule("C02-DICTROUND", "dictionary-size rounding of the LZMA2 property byte and the .lzma header: smear distance set "
+                             "is every distance except 1")
+    SREF = {0} | set(range(2, 32))
+    for fname, file in (("lzma_lzma2_props_encode", "lzma2_encoder.c"), ("alone_encoder_init", "alone_encoder.c")):
+        f = prog.fn(fname, file)
+        ck.saw_function(f)
+        S, shifts, site = smear_distance_set(f, "d")
+        if not shifts:
+            raise AnalysisBroken("%s: no `d |= d >> k` smear found" % fname)
+        # the value that is smeared is size - 1 (so that exact sizes are kept)
+        dec = False
+        for b, i, e in f.iter_elems():
+            e_ = ex.deref(e)
+            if e_.get("k") == "un" and e_.get("op") in ("pre--", "post--") and ex.strip(e_["e"]).get("n") == "d":
+                dec = True
+            if e_.get("k") == "decl" and e_.get("n") == "d" and e_.get("init") is not None:
+                i0 = ex.strip(e_["init"])
+                if i0.get("k") == "bin" and i0["op"] == "-" and ex.const_val(i0["r"]) == 1:
+                    dec = True
+        ok = S == SREF and dec
+        ck.ob("C02-DICTROUND", fname, ok, common.where(f, site),
+              "%s: shifts %s give every distance except 1, applied to size - 1" % (fname, shifts) if ok else
+              "%s(): the rounding smear with shifts %s %s: the declared dictionary size is %s" % (
+                  fname, shifts,
+                  ("lacks distance(s) %s" % sorted(SREF - S) if SREF - S else "also has distance %s" % sorted(S - SREF))
+                  if S != SREF else "is not applied to size - 1",
+                  "not >= the size in use for some sizes (e.g. bits left unset below the top two), so streams the "
+                  "encoder produces are rejected by decoders" if SREF - S else
+                  "rounded past the next 2^n + 2^(n-1)" if S - SREF else "one step too large for exact sizes"),
+              key="DICTROUND:" + fname)
+    ck.floor("C02-DICTROUND", 2)
+
+
 def run(ck):
     ck.explanation = (
         "Layout facts (constant-folded offsets, lengths, CRC ranges, flag bits, field order, byte order) are "
@@ -568,3 +630,4 @@ def run(ck):
     check_chk(ck, prog)
     check_blkopt(ck, prog)
     check_uncomp_fallback(ck, prog)
+    check_dict_rounding(ck, prog)
